@@ -3,19 +3,95 @@ import itertools
 
 from .. import core, sx
 
-NAMES = ["a", "b", "c"]
-ADDRS = ["x", "y", "z"]
-FALSY = [None, ""]
+NAMES = ["na", "nb", "nc"]
+ADDRS = ["ax", "ay", "az"]
+TUPLE_ADDRS = [("t", "h", 1), ("t", "h", 2), ("t", "g", 1)]          # (host, port) tuples
+FALSY = [None, "", 0, ("t",), ("l",), ("d",)]                          # None, '', 0, (), [], {}
+UNHASHABLE = [("l", "h", 1), ("d", "h", 1)]                            # ["h", 1] as json.loads gives it, {"h": 1}
 BOOL_OPS = ("add", "rem", "chga", "chgn")
+
+# A key in a case is a plain literal: None | str | int | ("t", item..) tuple | ("l", item..) list | ("d"[, k, v]) dict.
+# The adapter BUILDS A FRESH OBJECT from it for every single call (strings via join, tuples/lists/dicts from parts), so that
+# an argument is equal to, but never the same object as, what an earlier call stored.
+
+
+class _Obs(tuple):
+    """stage observations (what the model predicts) + what happened to the bystander instances (oracle only)"""
+    by = ()
+
+
+def _un(v):
+    """("same", key) asks the adapter to pass the very object the registry already holds, when it holds an equal one"""
+    return v[1] if isinstance(v, tuple) and v[:1] == ("same",) else v
+
+
+def _mk(v):
+    v = _un(v)
+    if v is None or isinstance(v, int):
+        return v
+    if isinstance(v, str):
+        return "".join(list(v))              # a new str object for len >= 2 (one-character strings are interned by CPython)
+    kind, items = v[0], [_mk(x) for x in v[1:]]
+    if kind == "b":
+        return bytes(bytearray(v[1].encode("latin-1")))      # a bytes key (b"ax" != "ax")
+    if kind == "t":
+        return tuple(items)
+    if kind == "l":
+        return list(items)
+    return {items[0]: items[1]} if items else {}
+
+
+def _valid(v):
+    """accepted as a name / address: truthy and hashable"""
+    v = _un(v)
+    if v is None or v == "" or v == 0:
+        return False
+    if isinstance(v, tuple):
+        return v[0] in ("t", "b") and len(v) > 1 and v[1] != ""
+    return True
+
+
+def _part(x):
+    return (b"i" + str(x).encode()) if isinstance(x, int) else (b"s" + x.encode("utf-8", "surrogatepass"))
 
 
 def _k(v):
-    """key (None | str) -> wire value"""
-    return None if v is None else v.encode("utf-8")
+    """case key -> wire value (k KIND #part ...)"""
+    v = _un(v)
+    if v is None:
+        return ("k", 0)
+    if isinstance(v, str):
+        return ("k", 1, v.encode("utf-8", "surrogatepass"))
+    if isinstance(v, int):
+        return ("k", 4, str(v).encode())
+    if v[0] == "b":
+        return ("k", 6, v[1].encode("latin-1"))
+    return ("k", {"t": 2, "l": 3, "d": 5}[v[0]]) + tuple(_part(x) for x in v[1:])
+
+
+def _wire_obj(o):
+    """real object (as found in the real dicts / returned) -> wire value"""
+    if o is None:
+        return ("k", 0)
+    if isinstance(o, str):
+        return ("k", 1, o.encode("utf-8", "surrogatepass"))
+    if isinstance(o, (bytes, bytearray)):
+        return ("k", 6, bytes(o))
+    if isinstance(o, bool):
+        return ("k", 9, str(o).encode())
+    if isinstance(o, int):
+        return ("k", 4, str(o).encode())
+    if isinstance(o, tuple):
+        return ("k", 2) + tuple(_part(x) for x in o)
+    if isinstance(o, list):
+        return ("k", 3) + tuple(_part(x) for x in o)
+    if isinstance(o, dict):
+        return ("k", 5) + tuple(_part(x) for kv in o.items() for x in kv)
+    return ("k", 8, type(o).__name__.encode())
 
 
 def _items(d):
-    return tuple(sorted((_k(a), _k(b)) for a, b in d.items()))
+    return tuple(sorted(((_wire_obj(a), _wire_obj(b)) for a, b in d.items()), key=lambda kv: (kv[0][1], kv[0][2:])))
 
 
 def _pairs(case):
@@ -37,7 +113,8 @@ class C27(core.Check):
                  "+ differential run of the compiled model against hio.help.naming.Namer + independent inverse/unchanged oracle on the real dicts")
     level_text = ("Lean theorems for every key type with decidable equality, every truthiness predicate and every history (unbounded): inverse_init, inverse_step "
                   "(every public op incl. constructor entries, clear, getters), inverse_history (induction over the op list, also after a constructor that raised part-way), "
-                  "no_two_names_share_address / no_two_addresses_share_name, rejected_or_nochange_is_identity (NamerError or False result => state literally unchanged), "
+                  "no_two_names_share_address / no_two_addresses_share_name, rejected_or_nochange_is_identity (ANY exception — NamerError, TypeError for an unhashable argument — or a False result => state literally unchanged), "
+                  "unhashable_argument_never_accepted (argument kinds valid / empty / unhashable: hashability is a parameter of the model like truthiness), "
                   "never_keyerror (the `del` statements never raise under the invariant), keys_unique_history (dict well-formedness of the model state), "
                   "plus functional specs of the four mutators. Nothing is _partial. The hand-written model is tied to the code by the differential run "
                   "(thorough: every reachable state over 3 names x 3 addresses x every op with None/'' arguments, all histories of length <= 3 over 2x2+None).")
@@ -45,7 +122,8 @@ class C27(core.Check):
                   "keys are str or None in the correspondence (model is polymorphic); representativeness of the sampled correspondence.")
     quick_n = 6000
     thorough_n = 100000
-    rule = ("case = (entries mode none|list|dict, constructor pairs, op list); ops add/rem/chga/chgn/clear/geta/getn/count over names a,b,c, addresses x,y,z, None and '' "
+    rule = ("case = (entries mode none|list|dict, constructor pairs, op list); ops add/rem/chga/chgn/clear/geta/getn/count over str names, str and (host, port) tuple addresses, and in every argument position "
+            "None, '', 0, (), [], {}, an unhashable [host, port] list and a dict; every argument of every call is a FRESHLY BUILT object (equal to, never identical with, what is stored); any exception class is recorded "
             "(biased to conflicts: re-add, rename onto existing, change to same value, remove with mismatching pair); "
             "non-trivial = at least one op executed on a state with >= 1 entry and at least one rejected/no-change result and one successful mutation; distinct by request line")
     trusted_base = ["correspondence harness/props/C27.py: compiled model driver vs hio.help.naming.Namer, state compared after every op",
@@ -56,16 +134,28 @@ class C27(core.Check):
     def corpus(self):
         return [
             ("none", [], []),
-            ("list", [("a", "x"), ("b", "y")], [("add", "a", "x"), ("add", "a", "y"), ("add", "c", "x"), ("add", "c", "z")]),
-            ("list", [("a", "x"), ("b", "x")], []),                      # constructor raises half-way
-            ("dict", [("a", "x"), ("a", "y"), ("b", "z")], [("count",)]),
-            ("list", [("a", "x"), ("b", "y")], [("chga", "a", "y"), ("chga", "a", "x"), ("chga", "a", "z"), ("chga", "c", "x"), ("geta", "a"), ("getn", "x")]),
-            ("list", [("a", "x"), ("b", "y")], [("chgn", "x", "b"), ("chgn", "x", "a"), ("chgn", "x", "c"), ("chgn", "z", "a"), ("getn", "x"), ("geta", "a")]),
-            ("list", [("a", "x"), ("b", "y")], [("rem", "a", "y"), ("rem", None, "x"), ("rem", "b", None), ("rem", "b", "y"), ("rem", None, None)]),
-            ("list", [("a", "x"), ("b", "y")], [("rem", "", "y"), ("rem", "a", ""), ("rem", "", "")]),
-            ("list", [("a", "x")], [("add", None, "y"), ("add", "b", ""), ("chga", "a", None), ("chgn", "x", ""), ("chga", None, "y"), ("chgn", None, "b")]),
-            ("list", [("a", "x"), ("b", "y"), ("c", "z")], [("clear",), ("count",), ("add", "a", "z"), ("rem", "a", "x"), ("rem", "c", "z")]),
-            ("list", [("a", "x")], [("chga", "a", "y"), ("add", "b", "x"), ("chgn", "x", "a"), ("chgn", "y", "b"), ("rem", None, "y"), ("add", "a", "y")]),
+            ("list", [("na", "ax"), ("nb", "ay")], [("add", "na", "ax"), ("add", "na", "ay"), ("add", "nc", "ax"), ("add", "nc", "az")]),
+            ("list", [("na", "ax"), ("nb", "ax")], []),                      # constructor raises half-way
+            ("dict", [("na", "ax"), ("na", "ay"), ("nb", "az")], [("count",)]),
+            ("list", [("na", "ax"), ("nb", "ay")], [("chga", "na", "ay"), ("chga", "na", "ax"), ("chga", "na", "az"), ("chga", "nc", "ax"), ("geta", "na"), ("getn", "ax")]),
+            ("list", [("na", "ax"), ("nb", "ay")], [("chgn", "ax", "nb"), ("chgn", "ax", "na"), ("chgn", "ax", "nc"), ("chgn", "az", "na"), ("getn", "ax"), ("geta", "na")]),
+            ("list", [("na", "ax"), ("nb", "ay")], [("rem", "na", "ay"), ("rem", None, "ax"), ("rem", "nb", None), ("rem", "nb", "ay"), ("rem", None, None)]),
+            ("list", [("na", "ax"), ("nb", "ay")], [("rem", "", "ay"), ("rem", "na", ""), ("rem", "", "")]),
+            ("list", [("na", "ax")], [("add", None, "ay"), ("add", "nb", ""), ("chga", "na", None), ("chgn", "ax", ""), ("chga", None, "ay"), ("chgn", None, "nb")]),
+            ("list", [("na", "ax"), ("nb", "ay"), ("nc", "az")], [("clear",), ("count",), ("add", "na", "az"), ("rem", "na", "ax"), ("rem", "nc", "az")]),
+            ("list", [("na", "ax")], [("chga", "na", "ay"), ("add", "nb", "ax"), ("chgn", "ax", "na"), ("chgn", "ay", "nb"), ("rem", None, "ay"), ("add", "na", "ay")]),
+            # equal but not identical arguments (every call gets freshly built objects), tuple addresses
+            ("none", [], [("add", "na", ("t", "h", 1)), ("chga", "na", ("t", "h", 1)), ("getn", ("t", "h", 1)), ("add", "na", ("t", "h", 1)), ("chgn", ("t", "h", 1), "na"),
+                          ("rem", "na", ("t", "h", 1)), ("count",)]),
+            ("list", [("na", "ax")], [("chga", "na", "ax"), ("getn", "ax"), ("chgn", "ax", "na"), ("geta", "na"), ("add", "na", "ax")]),
+            # unhashable / otherwise rejected arguments in every position
+            ("list", [("na", "ax")], [("add", "nb", ("l", "h", 1)), ("add", ("l", "h", 1), "ay"), ("add", "nb", ("d", "h", 1)), ("add", "nb", ("l",)), ("add", "nb", 0),
+                                      ("rem", "na", ("l", "h", 1)), ("rem", ("l", "h", 1), "ax"), ("rem", None, ("l", "h", 1)), ("rem", ("l",), ("d",)),
+                                      ("chga", "na", ("l", "h", 1)), ("chga", ("l", "h", 1), "ay"), ("chga", "nb", ("l", "h", 1)),
+                                      ("chgn", "ax", ("l", "h", 1)), ("chgn", ("l", "h", 1), "nb"), ("chgn", "ay", ("d", "h", 1)),
+                                      ("geta", ("l", "h", 1)), ("getn", ("d", "h", 1)), ("geta", 0), ("count",)]),
+            ("list", [("na", ("l", "h", 1))], []),
+            ("list", [("na", "ax"), (("l", "h", 1), "ay")], []),
         ]
 
     def _all_ops(self, names, addrs, falsy):
@@ -86,21 +176,25 @@ class C27(core.Check):
             for ns in itertools.combinations(NAMES, k):
                 for as_ in itertools.permutations(ADDRS, k):
                     path = [("add", n, a) for n, a in zip(ns, as_)]
-                    for op in self._all_ops(NAMES, ADDRS, FALSY) + [("clear",), ("count",)] + \
-                            [("geta", n) for n in NAMES + FALSY] + [("getn", a) for a in ADDRS + FALSY]:
+                    for op in self._all_ops(NAMES, ADDRS, FALSY + UNHASHABLE) + [("clear",), ("count",)] + \
+                            [("geta", n) for n in NAMES + FALSY + UNHASHABLE] + [("getn", a) for a in ADDRS + FALSY + UNHASHABLE]:
                         cases.append(("none", [], path + [op]))
         # all histories of length <= 3 over 2 names x 2 addresses + None
         small = self._all_ops(NAMES[:2], ADDRS[:2], [None])
         for ln in range(1, 4):
             for h in itertools.product(small, repeat=ln):
                 cases.append(("none", [], list(h)))
+        small2 = self._all_ops(NAMES[:2], [ADDRS[0], TUPLE_ADDRS[0]], [None, UNHASHABLE[0]])
+        for h in itertools.product(small2, repeat=2):
+            cases.append(("none", [], list(h)))
         return cases, ("every reachable state over names a,b,c x addresses x,y,z (34 states, reached by a shortest history) x every op with every argument in "
-                       "{names, None, ''} x {addresses, None, ''}; all histories of length <= 3 over 2 names x 2 addresses + None (36 ops)")
+                       "{names, None, '', 0, (), [], {}, ['h',1], {'h':1}} x {addresses, the same}; all histories of length <= 3 over 2 names x 2 addresses + None (36 ops); "
+                       "all histories of length 2 over 2 names x {str, tuple} addresses + None + an unhashable list (64 ops)")
 
     def _key(self, rng, pool, pf=0.08):
         r = rng.random()
         if r < pf:
-            return rng.choice(FALSY)
+            return rng.choice(FALSY + UNHASHABLE + UNHASHABLE + [("b", "")])
         return rng.choice(pool)
 
     def _op(self, rng, names, addrs, state):
@@ -109,7 +203,7 @@ class C27(core.Check):
         n = self._key(rng, names)
         a = self._key(rng, addrs)
         if state and rng.random() < 0.5:      # aim at existing entries
-            en, ea = rng.choice(sorted(state.items()))
+            en, ea = rng.choice(sorted(state.items(), key=repr))
             m = rng.random()
             if m < 0.35:
                 n = en
@@ -145,22 +239,22 @@ class C27(core.Check):
         k = op[0]
         if k == "add":
             _, n, a = op
-            if n and a and n not in state and a not in inv:
+            if _valid(n) and _valid(a) and n not in state and a not in inv:
                 state[n] = a
         elif k == "rem":
             _, n, a = op
-            if n:
-                if n in state and (not a or state[n] == a):
+            if _valid(n):
+                if n in state and (not _valid(a) and a in FALSY or state[n] == a):
                     del state[n]
-            elif a and a in inv:
+            elif n in FALSY and _valid(a) and a in inv:
                 del state[inv[a]]
         elif k == "chga":
             _, n, a = op
-            if n and a and n in state and a not in inv:
+            if _valid(n) and _valid(a) and n in state and a not in inv:
                 state[n] = a
         elif k == "chgn":
             _, a, n = op
-            if n and a and a in inv and n not in state:
+            if _valid(n) and _valid(a) and a in inv and n not in state:
                 del state[inv[a]]
                 state[n] = a
         elif k == "clear":
@@ -170,13 +264,16 @@ class C27(core.Check):
         for _ in range(n):
             nn = rng.choice([1, 2, 2, 3, 3, 3, 5])
             na = rng.choice([1, 2, 2, 3, 3, 3, 5])
-            names = (NAMES + ["dd", "é"])[:nn]
-            addrs = (ADDRS + ["ww", "a"])[:na]      # "a" is also a name: names and addresses may collide as strings
+            names = (NAMES + ["dd", "éé", "n\udc80", 7])[:nn] if rng.random() < 0.8 else rng.sample(NAMES + ["n\udc80", 7, ("b", "na"), ("t", "na")], min(nn, 5))
+            addrs = rng.sample(ADDRS + TUPLE_ADDRS + ["na", ("b", "ax"), 7, "ÿ\x80"], min(na, 7))      # "na" is also a name: names and addresses may collide
             mode = rng.choice(["none", "none", "list", "list", "dict"])
             pairs = []
             if mode != "none":
-                for _ in range(rng.randrange(0, 4)):
-                    pairs.append((self._key(rng, names, 0.03), self._key(rng, addrs, 0.03)))
+                for _ in range(rng.randrange(0, 5)):
+                    nm = self._key(rng, names, 0.08)
+                    if mode == "dict" and not (nm is None or isinstance(nm, (str, int)) or nm[0] in ("t", "b")):
+                        nm = rng.choice(names)           # a dict cannot even be built with an unhashable key
+                    pairs.append((nm, self._key(rng, addrs, 0.08)))
             state = {}
             case0 = (mode, pairs, [])
             ok = True
@@ -191,6 +288,9 @@ class C27(core.Check):
                 for _ in range(rng.choice([1, 2, 3, 4, 6, 8, 12, 20])):
                     op = self._op(rng, names, addrs, state)
                     self._shadow(state, op)
+                    if len(op) == 3 and rng.random() < 0.3:
+                        # pass the identical stored object instead of an equal fresh one, per argument
+                        op = (op[0],) + tuple(("same", x) if rng.random() < 0.6 else x for x in op[1:])
                     ops.append(op)
             yield (mode, pairs, ops)
 
@@ -204,63 +304,94 @@ class C27(core.Check):
     # ---------------------------------------------------------------- implementation
     def run_impl(self, case):
         from hio.help import naming
-        from hio import hioing
         mode, pairs, ops = case
 
         def classify(ex):
-            if isinstance(ex, hioing.NamerError):
-                return ("raise", "NamerError")
-            if isinstance(ex, KeyError):
-                return ("raise", "KeyError")
-            raise ex
+            # ANY exception is a rejection; its class is part of the observation (the model predicts NamerError / TypeError)
+            return ("raise", type(ex).__name__)
 
+        # every argument of every call is a freshly built object: equal to, never identical with, what is stored
         if mode == "none":
             entries = None
         elif mode == "dict":
-            entries = dict((n, a) for n, a in pairs)
+            entries = {_mk(n): _mk(a) for n, a in _pairs(case)}
         else:
-            entries = [tuple(p) for p in pairs]
+            entries = [(_mk(n), _mk(a)) for n, a in pairs]
+        try:
+            bystander = naming.Namer(entries=[("zz", "zzz")])    # another instance, made before: must never be touched
+            bystander.addrByName
+        except Exception as ex:
+            return _Obs((("raise", "Bystander:" + type(ex).__name__),))
         try:
             nm = naming.Namer(entries=entries)
+            nm.addrByName, nm.nameByAddr
         except Exception as ex:
-            return (classify(ex),)
-        out = [("ok", _items(nm.addrByName), _items(nm.nameByAddr))]
+            return _Obs((classify(ex),))
+        later = naming.Namer()                                    # and one made after: must start and stay empty
+
+        def observe():
+            # the properties hand out copies: whatever the caller does to them must not reach the registry
+            c1, c2 = nm.addrByName, nm.nameByAddr
+            c1["junk-name"] = "junk-addr"
+            c2.clear()
+            return _items(nm.addrByName), _items(nm.nameByAddr)
+
+        def arg(v):
+            o = _mk(v)
+            if isinstance(v, tuple) and v[:1] == ("same",):
+                try:
+                    for held in list(nm.addrByName) + list(nm.nameByAddr):
+                        if type(held) is type(o) and held == o:
+                            return held
+                except Exception:
+                    pass
+            return o
+
+        out = [("ok",) + observe()]
         for op in ops:
             k = op[0]
+            args = [arg(x) for x in op[1:]]
             try:
                 if k == "add":
-                    r = nm.addNameAddr(name=op[1], addr=op[2])
+                    r = nm.addNameAddr(name=args[0], addr=args[1])
                 elif k == "rem":
-                    r = nm.remNameAddr(name=op[1], addr=op[2])
+                    r = nm.remNameAddr(name=args[0], addr=args[1])
                 elif k == "chga":
-                    r = nm.changeAddrAtName(name=op[1], addr=op[2])
+                    r = nm.changeAddrAtName(name=args[0], addr=args[1])
                 elif k == "chgn":
-                    r = nm.changeNameAtAddr(addr=op[1], name=op[2])
+                    r = nm.changeNameAtAddr(addr=args[0], name=args[1])
                 elif k == "clear":
                     r = nm.clearAllNameAddr()
                 elif k == "geta":
-                    r = nm.getAddr(op[1])
+                    r = _wire_obj(nm.getAddr(args[0]))
                 elif k == "getn":
-                    r = nm.getName(op[1])
+                    r = _wire_obj(nm.getName(args[0]))
                 elif k == "count":
                     r = nm.countNameAddr
                 else:
                     raise core.Infra(f"bad op {op!r}")
-                if isinstance(r, str):
-                    r = r.encode("utf-8")
+                if not (r is None or isinstance(r, (bool, int, tuple))):
+                    r = _wire_obj(r)
                 res = ("ok", r)
             except core.Infra:
                 raise
             except Exception as ex:
                 res = classify(ex)
-            out.append((res, _items(nm.addrByName), _items(nm.nameByAddr)))
-        return tuple(out)
+            out.append((res,) + observe())
+        obs = _Obs(out)
+        obs.by = (_items(bystander.addrByName), _items(bystander.nameByAddr), _items(later.addrByName), _items(later.nameByAddr))
+        return obs
 
     # ---------------------------------------------------------------- oracle (property text, real dicts only)
     def oracle(self, case, obs):
         bad = []
         if obs[0][0] == "raise":
-            return bad            # constructor rejected the entries: no object to speak about
+            # the constructor may reject its entries (NamerError, TypeError for an unhashable one): no object to speak about;
+            # anything else out of a constructor is not a rejection of the input
+            return [] if obs[0][1] in ("NamerError", "TypeError") else ["constructor-failed-" + obs[0][1]]
+        zz = ((("k", 1, b"zz"), ("k", 1, b"zzz")),)
+        if getattr(obs, "by", None) and obs.by != (zz, ((("k", 1, b"zzz"), ("k", 1, b"zz")),), (), ()):
+            bad.append("another-instance-changed")
         prev = None
         for i, st in enumerate(obs):
             if i == 0:
@@ -306,8 +437,14 @@ class C27(core.Check):
             r = st[0]
             tag = r[1] if r[0] == "raise" else ("True" if r[1] is True else "False" if r[1] is False else "value")
             f.append(f"{op[0]}:{tag}")
+            if any(isinstance(x, tuple) and x[:1] == ("same",) for x in op[1:]):
+                f.append(f"{op[0]}:identical-arg")
             if any(x in FALSY for x in op[1:]):
                 f.append(f"{op[0]}:falsy-arg")
+            if any(x in UNHASHABLE for x in op[1:]):
+                f.append(f"{op[0]}:unhashable-arg")
+            if any(isinstance(x, tuple) and x[:1] == ("t",) and len(x) > 1 for x in op[1:]):
+                f.append(f"{op[0]}:tuple-arg")
         return f
 
     def shrink(self, case):
@@ -324,7 +461,7 @@ class C27(core.Check):
     def mutate(self, rng, case):
         mode, pairs, ops = case
         out = list(self.shrink(case))
-        every = self._all_ops(NAMES, ADDRS, [None])
+        every = self._all_ops(NAMES, ADDRS + TUPLE_ADDRS[:1], [None, UNHASHABLE[0]])
         for _ in range(40):
             out.append((mode, pairs, list(ops) + [rng.choice(every)]))
             if ops:
